@@ -98,6 +98,8 @@ def compare(chk: Check, arena: Arena, behaviours, results, broken, expected, blo
         for k, (g, e) in enumerate(zip(got, exp)):
             nsteps += 1
             blk = blocks[beh[k]["block"]]
+            if "*" in e.get("dontcare", []):
+                break        # the step's documented result depends on state the documentation leaves unspecified
             ev = {v: ival(x) for v, x in e["vals"].items()}
             diffs = []
             if g["out"] != e["out"]:
@@ -111,7 +113,7 @@ def compare(chk: Check, arena: Arena, behaviours, results, broken, expected, blo
                     diffs.append(f"{v}: got {hex(g['vals'][v])} expected {hex(ev[v])}")
             if g["br"] != e["br"]:
                 diffs.append(f"branch: got {g['br']} expected {e['br']}")
-            if g["addc"] != e["addc"] or g["subc"] != e["subc"]:
+            if (e["addc"] != 2 and g["addc"] != e["addc"]) or (e["subc"] != 2 and g["subc"] != e["subc"]):      # 2 = not documented
                 diffs.append(f"carry: got add={g['addc']} sub={g['subc']} expected add={e['addc']} sub={e['subc']}")
             if not g["hidden_ok"]:
                 diffs.append("hidden library state is not at rest after the macro")
